@@ -9,6 +9,8 @@ def run(tier):
     r = tlc.run("Motion.tla", "Motion.cfg" if quick else "Motion_thorough.cfg", workers=12, timeout=3000, heap="16g")
     c.add_tlc(r, "frames (rational rotations x translations; longitude offsets); exact group structure on the lattice")
     beh = list(dict.fromkeys(r.behaviours))
+    ridges = [b for b in beh if '"ridge-shapes"' in b[:600]]
+    if not ridges: raise tlc.SetupError("Motion.tla emitted no ridge-shape behaviours")
     trench = [b for b in beh if '"trench-shapes"' in b[:600]]
     beh = [b for b in beh if '"trench-shapes"' not in b[:600]] + (trench[c.seed % 11::11] if quick else trench[c.seed % 2::2])
     if not quick:
@@ -37,6 +39,8 @@ def run(tier):
                           "polyline of 3 (thorough: up to 4) points of a 3x3 (4x4) lattice without exactly collinear triples -- sharp turns, "
                           "axis-parallel parts, V and S shapes -- with a temperature linear in the distance from the plane, under three rotations / "
                           "translations, compared on a dense lattice of points at two depths (an eleventh of the worlds per quick run, half of them per thorough run, plus simulated trenches of up to 6 points on the 4x4 lattice); a "
+                          "Ridge family: an oceanic plate (half space / plate model) measured against two- and three-piece ridges with oblique transform faults and "
+                          "a bent ridge, spreading velocity per ridge point, under the three trench frames on a 26 x 27 x 2 lattice. "
                           "Plus simulated documents of the world-file grammar Gen.tla, each written against a second frame (three rotations / translations, "
                           "longitude offsets 100, 172, -184) and compared on a grid of 143 positions x 7 depths; a disagreement is dropped (and counted) only if the base world's own answer is unstable under a 1e-7 jitter. non-trivial: all")
     c.assumptions += ["probes are at least 10 km from every feature boundary, so membership cannot flip by rounding; the statement's 'up to rounding' is taken as 1e-6 relative",
